@@ -65,6 +65,8 @@ pub struct Block { pub stmts: Vec<Stmt>, pub tail: Option<Box<Expr>> }
 #[derive(Clone, Debug)]
 pub enum Expr {
     Lit(W, Num), Bool(bool), Unit, Var(String),
+    /// `b256` literal (64 hex digits); the reference semantics treats it as a 256-bit value with `==` and `log` only
+    LitB256(Num),
     /// reference to a `const` item; the S-expression carries the initialiser
     ConstRef(String, Box<Expr>),
     Bin(BinOp, Box<Expr>, Box<Expr>), Cmp(CmpOp, Box<Expr>, Box<Expr>),
@@ -153,6 +155,7 @@ impl<'a> Decls<'a> {
     pub fn expr(&self, e: &Expr) -> String {
         match e {
             Expr::Lit(w, n) => n.sw(*w), Expr::Bool(b) => b.to_string(), Expr::Unit => "()".into(), Expr::Var(x) => x.clone(),
+            Expr::LitB256(n) => format!("0x{:016x}{:016x}{:016x}{:016x}", n.0[0], n.0[1], n.0[2], n.0[3]),
             Expr::ConstRef(n, _) => n.clone(),
             Expr::Bin(op, a, b) => format!("({} {} {})", self.expr(a), op.sw(), self.expr(b)),
             Expr::Cmp(op, a, b) => format!("({} {} {})", self.expr(a), op.sw(), self.expr(b)),
@@ -222,6 +225,7 @@ impl<'a> Decls<'a> {
         match e {
             Expr::Lit(w, n) => format!("({} {})", w.name(), n.sx()), Expr::Bool(b) => format!("({b})"), Expr::Unit => "(tup)".into(),
             Expr::Var(x) => format!("(v {x})"), Expr::ConstRef(_, i) => self.expr_sx(i),
+            Expr::LitB256(n) => format!("(u256 {})", n.sx()),
             Expr::Bin(op, a, b) => format!("({} {} {})", op.sx(), self.expr_sx(a), self.expr_sx(b)),
             Expr::Cmp(op, a, b) => format!("({} {} {})", op.sx(), self.expr_sx(a), self.expr_sx(b)),
             Expr::Land(a, b) => format!("(land {} {})", self.expr_sx(a), self.expr_sx(b)),
@@ -997,4 +1001,178 @@ pub fn gen_program(r: &mut Rng, k: usize, oob: bool, aggsel: bool) -> Program {
         stmts.push(Stmt::Log(Expr::Idx(Box::new(Expr::Var(name)), Box::new(Expr::Var(iname)))));
     }
     Program { id: g.id, structs: g.structs, enums: g.enums, consts: g.consts, fns: g.fns, main: Block { stmts, tail: None }, generics: g.generics, oob, aggsel }
+}
+
+// ------------------------------------------------------------------------------------------ near-duplicate families
+
+fn l64(n: u64) -> Expr { Expr::Lit(W::U64, Num::small(n)) }
+fn var(x: &str) -> Expr { Expr::Var(x.to_string()) }
+fn bin(op: BinOp, a: Expr, b: Expr) -> Expr { Expr::Bin(op, Box::new(a), Box::new(b)) }
+fn opq64(n: u64) -> Expr { Expr::Opq(Ty::Int(W::U64), Box::new(l64(n))) }
+fn tail_block(e: Expr) -> Block { Block { stmts: vec![], tail: Some(Box::new(e)) } }
+fn let_u64(name: &str, e: Expr) -> Stmt { Stmt::Let { name: name.into(), ty: Ty::Int(W::U64), mutable: false, e } }
+
+/// common prefix that makes a body "big" (> 12 IR instructions) and uses the run-time argument `z`
+fn padding() -> Vec<Stmt> {
+    vec![
+        let_u64("q0", bin(BinOp::Add, var("z"), l64(1))),
+        let_u64("q1", bin(BinOp::Xor, var("q0"), l64(5))),
+        let_u64("q2", bin(BinOp::Mod, bin(BinOp::Mul, var("q1"), l64(3)), l64(1000))),
+        let_u64("q3", bin(BinOp::Or, var("q2"), bin(BinOp::And, var("q0"), l64(7)))),
+        let_u64("q4", bin(BinOp::Add, bin(BinOp::Shr, var("q3"), l64(1)), bin(BinOp::And, var("q1"), l64(3)))),
+        Stmt::Log(var("q4")),
+    ]
+}
+
+fn big_num(r: &mut Rng) -> Num { Num([r.next() | (1 << 63), r.next(), r.next(), r.next()]) }
+
+/// A program made of 2-3 *near-duplicate families*: 2-3 non-inlined helper functions each (`#[inline(never)]`, or a big
+/// body with two call sites) that are textually identical except for exactly ONE literal / operator / index / tag /
+/// constant. Every member takes run-time arguments that it uses; the test calls every member twice with opaque
+/// arguments and logs every result. Stresses function deduplication and constant demotion.
+pub fn gen_neardup_program(r: &mut Rng, k: usize) -> Program {
+    let id = format!("p{k}");
+    let mut structs: Vec<StructDecl> = vec![];
+    let mut enums: Vec<EnumDecl> = vec![];
+    let mut fns: Vec<FnDecl> = vec![];
+    let mut main: Vec<Stmt> = vec![];
+    let nfam = r.range(2, 3) as usize;
+    let mut used: Vec<u64> = vec![];
+    for fi in 0..nfam {
+        let mut tpl = r.below(14);
+        while used.contains(&tpl) { tpl = r.below(14); }
+        used.push(tpl);
+        let mut members = r.range(2, 3) as usize;
+        // 0: #[inline(never)], small body; 1: #[inline(never)] + padding; 2: no attribute, padding, two call sites
+        let mode = r.below(3);
+        let ty_s = |s: &str| s.to_string();
+        // per template: extra params (after `z: u64`), return type, body tail per member, two argument sets
+        let mut params: Vec<(String, String)> = vec![("z".into(), "u64".into())];
+        let ret: String;
+        let mut tails: Vec<Expr> = vec![];
+        let args_a: Vec<Expr>;
+        let args_b: Vec<Expr>;
+        let opq_bool = |b: bool| Expr::Opq(Ty::Bool, Box::new(Expr::Bool(b)));
+        match tpl {
+            0 | 1 => {
+                // one large b256 / u256 constant
+                let is_b = tpl == 0;
+                let tn = if is_b { "b256" } else { "u256" };
+                // (returning the by-value PARAMETER in one branch -- `if c { fb } else { CONST }` -- is the shape of
+                // finding F4: release returns CONST; the family selects between two constants instead)
+                params.push(("c".into(), ty_s("bool")));
+                ret = ty_s(tn);
+                let common = big_num(r);
+                let mk = |n: Num| if is_b { Expr::LitB256(n) } else { Expr::Lit(W::U256, n) };
+                for _ in 0..members {
+                    let n = big_num(r);
+                    let cond = Expr::Land(Box::new(var("c")), Box::new(Expr::Cmp(CmpOp::Gt, Box::new(var("z")), Box::new(l64(0)))));
+                    tails.push(Expr::If(Box::new(cond), tail_block(mk(common)), tail_block(mk(n))));
+                }
+                args_a = vec![opq_bool(false)];
+                args_b = vec![opq_bool(true)];
+            }
+            2 | 3 | 4 => {
+                // one component of an aggregate constant
+                let sidx = structs.len();
+                if tpl == 4 { structs.push(StructDecl { name: format!("S{id}_{fi}"), fields: vec![("f0".into(), Ty::Int(W::U64)), ("f1".into(), Ty::Int(W::U64)), ("f2".into(), Ty::Int(W::U64))] }); }
+                params.push(("x".into(), ty_s("u64"))); params.push(("c".into(), ty_s("bool")));
+                ret = match tpl { 2 => ty_s("(u64, u64, u64)"), 3 => ty_s("[u64; 3]"), _ => format!("S{id}_{fi}") };
+                let mk = |es: Vec<Expr>| match tpl { 2 => Expr::Tuple(es), 3 => Expr::Array(es), _ => Expr::StructNew(sidx, es) };
+                let pos = r.below(3) as usize;
+                let base = [r.below(1 << 40), r.below(1 << 40), r.below(1 << 40)];
+                for m in 0..members {
+                    let mut c = base; c[pos] = base[pos].wrapping_add(1 + m as u64 * 17);
+                    tails.push(Expr::If(Box::new(var("c")), tail_block(mk(vec![var("x"), var("x"), var("z")])), tail_block(mk(c.iter().map(|v| l64(*v)).collect()))));
+                }
+                args_a = vec![opq64(4), opq_bool(false)];
+                args_b = vec![opq64(5), opq_bool(true)];
+            }
+            5 => {
+                params.push(("x".into(), ty_s("u64")));
+                ret = ty_s("u64");
+                let base = r.below(1 << 30);
+                for m in 0..members { tails.push(bin(BinOp::Add, bin(BinOp::Mul, var("x"), l64(3)), l64(base + 1 + m as u64))); }
+                args_a = vec![opq64(2)]; args_b = vec![opq64(9)];
+            }
+            6 => {
+                let w = *r.pick(&[W::U8, W::U16, W::U32]);
+                params.push(("x".into(), ty_s(w.name())));
+                ret = ty_s(w.name());
+                let base = r.below(50);
+                for m in 0..members { tails.push(bin(BinOp::Add, bin(BinOp::And, var("x"), Expr::Lit(w, Num::small(15))), Expr::Lit(w, Num::small(base + 1 + m as u64)))); }
+                let a = |n: u64| Expr::Opq(Ty::Int(w), Box::new(Expr::Lit(w, Num::small(n))));
+                args_a = vec![a(3)]; args_b = vec![a(200)];
+            }
+            7 => {
+                members = 2;
+                params.push(("x".into(), ty_s("u64"))); params.push(("c".into(), ty_s("bool")));
+                ret = ty_s("bool");
+                for m in 0..members {
+                    tails.push(Expr::Land(Box::new(Expr::Cmp(CmpOp::Gt, Box::new(var("x")), Box::new(l64(3)))), Box::new(Expr::Lor(Box::new(var("c")), Box::new(Expr::Bool(m == 0))))));
+                }
+                args_a = vec![opq64(5), opq_bool(false)]; args_b = vec![opq64(2), opq_bool(true)];
+            }
+            8 => {
+                params.push(("x".into(), ty_s("u64"))); params.push(("y".into(), ty_s("u64")));
+                ret = ty_s("u64");
+                for m in 0..members { tails.push(bin([BinOp::Add, BinOp::Sub, BinOp::Mul][m], var("x"), var("y"))); }
+                args_a = vec![opq64(9), opq64(4)]; args_b = vec![opq64(7), opq64(7)];
+            }
+            9 => {
+                params.push(("t".into(), ty_s("(u64, u64, u64)"))); params.push(("x".into(), ty_s("u64")));
+                ret = ty_s("u64");
+                for m in 0..members { tails.push(bin(BinOp::Add, Expr::TupGet(Box::new(var("t")), m), var("x"))); }
+                let t = |a: u64| Expr::Tuple(vec![opq64(a), opq64(a + 10), opq64(a + 20)]);
+                args_a = vec![t(1), opq64(100)]; args_b = vec![t(2), opq64(200)];
+            }
+            10 => {
+                params.push(("a".into(), ty_s("[u64; 3]"))); params.push(("x".into(), ty_s("u64")));
+                ret = ty_s("u64");
+                for m in 0..members { tails.push(bin(BinOp::Add, Expr::Idx(Box::new(var("a")), Box::new(l64(m as u64))), var("x"))); }
+                let t = |a: u64| Expr::Array(vec![opq64(a), opq64(a + 10), opq64(a + 20)]);
+                args_a = vec![t(1), opq64(100)]; args_b = vec![t(2), opq64(200)];
+            }
+            11 => {
+                params.push(("x".into(), ty_s("u64"))); params.push(("y".into(), ty_s("u64")));
+                ret = ty_s("bool");
+                for m in 0..members { tails.push(Expr::Cmp([CmpOp::Lt, CmpOp::Le, CmpOp::Eq][m], Box::new(var("x")), Box::new(var("y")))); }
+                args_a = vec![opq64(4), opq64(4)]; args_b = vec![opq64(3), opq64(4)];
+            }
+            12 => {
+                let eidx = enums.len();
+                enums.push(EnumDecl { name: format!("E{id}_{fi}"), variants: vec![("V0".into(), Ty::Int(W::U64)), ("V1".into(), Ty::Int(W::U64)), ("V2".into(), Ty::Int(W::U64))] });
+                params.push(("x".into(), ty_s("u64")));
+                ret = format!("E{id}_{fi}");
+                for m in 0..members { tails.push(Expr::EnumNew(eidx, m, Box::new(bin(BinOp::Add, var("x"), var("z"))))); }
+                args_a = vec![opq64(4)]; args_b = vec![opq64(5)];
+            }
+            _ => {
+                params.push(("x".into(), ty_s("u64")));
+                ret = ty_s("u64");
+                let base = r.below(1 << 30);
+                for m in 0..members {
+                    tails.push(Expr::Match(Box::new(var("x")), vec![
+                        (Pat::Int(W::U64, Num::small(1)), l64(base + 1 + m as u64)),
+                        (Pat::Wild, bin(BinOp::Add, var("x"), var("z"))),
+                    ]));
+                }
+                args_a = vec![opq64(1)]; args_b = vec![opq64(2)];
+            }
+        }
+        let names: Vec<String> = (0..members).map(|m| format!("f{id}_{fi}_{m}")).collect();
+        for (m, tail) in tails.into_iter().enumerate() {
+            let stmts = if mode == 0 { vec![] } else { padding() };
+            fns.push(FnDecl { name: names[m].clone(), tparams: vec![], params: params.clone(), ret: ret.clone(),
+                body: Block { stmts, tail: Some(Box::new(tail)) }, inline_never: mode != 2, sig: None });
+        }
+        for (ai, args) in [args_a, args_b].into_iter().enumerate() {
+            for n in &names {
+                let mut a = vec![opq64(10 + ai as u64 + fi as u64)];
+                a.extend(args.clone());
+                main.push(Stmt::Log(Expr::Call(n.clone(), a)));
+            }
+        }
+    }
+    Program { id, structs, enums, consts: vec![], fns, main: Block { stmts: main, tail: None }, generics: BTreeSet::new(), oob: false, aggsel: false }
 }
